@@ -276,6 +276,10 @@ def main():
     for line in report:
         print("  refs:", line)
     print(f"  refs: selfcheck passed in {time.time() - t0:.1f}s")
+    # complete hash-string references (mc.refs.formats): published vectors + third-party grid
+    from mc.refs import selfcheck_formats
+
+    selfcheck_formats.main()
     return 0
 
 
